@@ -138,6 +138,8 @@ impl Iterator for ReluctantFixedIterator<'_> {
             self.started = true;
 
             while self.count < self.min {
+                #[cfg(feature = "verif-hooks")]
+                crate::verif::step(crate::verif::site::RELUCTANT_FIXED);
                 let mut it = self.op.matches_iter(self.matcher, self.pos);
                 if let Some(next) = it.next() {
                     self.count += 1;
@@ -149,6 +151,8 @@ impl Iterator for ReluctantFixedIterator<'_> {
             return Some(self.pos);
         }
 
+        #[cfg(feature = "verif-hooks")]
+        crate::verif::step(crate::verif::site::RELUCTANT_FIXED);
         if self.count < self.max {
             self.matcher.clear_captured_groups_beyond(self.position);
             let mut it = self.op.matches_iter(self.matcher, self.pos);
